@@ -1,5 +1,5 @@
 """C16 pairwise intersection step (partly decided)."""
-from rules import pirules, fillrules
+from rules import pirules, fillrules, segrules
 
 LEVEL = 'other'
 EXPLANATION = __doc__
@@ -9,3 +9,6 @@ def run(ctx, rep):
     pirules.check_code(ctx, rep)
     pirules.check_endpoint_guards(ctx, rep)
     fillrules.check_divide(ctx, rep, rules=('S-divide', 'I-private-bump'))
+    segrules.check_clamp(ctx, rep)
+    segrules.check_ranges(ctx, rep)
+    segrules.check_bbox_symmetry(ctx, rep)
